@@ -45,7 +45,7 @@ class C12(Config):
     pid = "C12"
     proof_targets = ["C12/Properties.vo"]
     corr_targets = ["C12/Corr.vo", "C12/Wf.vo", "C12/Lit.vo"]
-    audit_dirs = ["Lib", "Gen", "C12"]
+    audit_dirs = ["Lib", "Gen", "C12", "C10"]
     header = ("From Coq Require Import Uint63.\n"
               "From V.Lib Require Import Base MachInt Hex.\n"
               "From V.C12 Require Import Model Spec Lit Corr Wf.\n"
@@ -78,12 +78,13 @@ class C12(Config):
                    "Rust String/&str values are valid UTF-8, Zatoshis <= MAX_MONEY, MemoBytes is 512 bytes, BTreeMap keys "
                    "strictly increasing (type invariants; stated as wf_request in the theorems)"]
     partial_clauses = [
-        "the address codec (ZcashAddress encode/decode; property C10) stays an oracle: the request theorems assume, for "
-        "each address that occurs in the request or is returned by the decoder, decode(encode a) = a and `encode a` "
-        "non-empty alphanumeric (C12 addr_ok). Not instantiated with the C10 model: C10_kind_roundtrip gives "
-        "decode(encode a) = norm a under side conditions, but C10 has no theorem that encodings are alphanumeric and uses "
-        "another byte representation. For Rust's structural ZcashAddress equality decode(encode a) = a fails on regtest "
-        "transparent/Sprout addresses (same strings as testnet); the harness compares addresses by canonical encoding",
+        "address codec: discharged for the C10 Gallina model of zcash_address (C12_concrete_*: decode(encode a) = a, "
+        "encodings non-empty alphanumeric are theorems; guards: well-formed, network normalised, encodes, Base58Check string "
+        "not accidentally Bech32). The C10 model itself is tied to the Rust codec by C10's own correspondence, and the F4Jumble "
+        "hashes H, G are arbitrary byte-valued functions. can_receive_memo / is_transparent_only stay arbitrary functions "
+        "(their values reach the model through the per-case table classified by the real zcash_address). For Rust's "
+        "structural ZcashAddress equality decode(encode a) = a fails on regtest transparent/Sprout addresses (norm_addr "
+        "guard); the harness compares addresses by canonical encoding",
     ]
 
     @staticmethod
@@ -97,6 +98,9 @@ class C12(Config):
         body += "Definition QCHAR_ENCODE_ADDED : list Z := [%s].\n" % "; ".join(str(x) for x in added)
         body += "Definition QCHARS_ALLOWED : list Z := [%s].\n" % "; ".join(str(x) for x in qc)
         srcgen.write_gen("C12Consts", body)
+        # the concrete address instance imports the C10 model, whose constants are regenerated too
+        from . import c10
+        c10.CONFIG.gen()
 
 
 CONFIG = C12()
